@@ -1021,6 +1021,209 @@ def gen_race_case(rnd):
     return {'lines': lines, 'tags': {'family': 'race'}}
 
 
+# ---------------------------------------------------------------------------------------------------------------
+# round 6: histories.  family permission-history: request, change the user's `permissions` in the running process, request
+# again - through FilterUtility and the real handlers.  family keepalive-identity: one real HttpServerConnection, several
+# requests with different Authorization headers over the same TLS session.
+def wide_entry(rnd, perm):
+    segs = perm.split('/')
+    return mangle_case(rnd, rnd.choice([perm, '*', segs[0] + '/*', '/'.join(segs[:-1]) + '/*', perm[:-1] + '?', '*' + perm[3:]]))
+
+
+def perm_list(rnd, kind, perm, hosts, svcs):
+    """a permission list of a given power with respect to the required permission `perm`"""
+    other = [hx(rnd.choice(['status/query', 'events/*', 'console', 'objects/create/*', 'types']))]
+    if kind == 'wide':
+        es = [hx(wide_entry(rnd, perm))]
+        if rnd.random() < 0.3: es += other
+    elif kind == 'filtered':
+        es = [hx(wide_entry(rnd, perm)) + '@' + ','.join(rfilter(rnd, hosts, svcs, 'perm')) for _ in range(rnd.choice((1, 1, 2)))]
+        if rnd.random() < 0.3: es = other + es
+    elif kind == 'mixed':          # an unfiltered and a filtered entry both match: the filter still restricts (see notes)
+        es = [hx(wide_entry(rnd, perm)), hx(wide_entry(rnd, perm)) + '@' + ','.join(rfilter(rnd, hosts, svcs, 'perm'))]
+        rnd.shuffle(es)
+    elif kind == 'none':
+        es = other if rnd.random() < 0.7 else []
+    else:                          # near miss
+        es = [hx(mangle_case(rnd, rnd.choice([perm + 'x', perm[:-1], perm.replace('/', '\\?', 1), 'objects/query', '\\*'])))]
+    return ';'.join(es) if es else '-'
+
+
+def hist_requests(rnd, perm, tys, hosts, svcs, pairs, n):
+    """n request lines for the QueryDescription (perm, tys): FilterUtility and the HTTP handlers"""
+    out = []
+    for _ in range(n):
+        m = rnd.random()
+        q = gen_query(rnd, tys, hosts, svcs, pairs)
+        if m < 0.15:
+            out.append('pm_perm perm=%s' % hx(mangle_case(rnd, perm) if rnd.random() < 0.3 else perm))
+        elif m < 0.5:
+            out.append(('pm_q types=%s perm=%s prov=%d ' % (','.join(tys), hx(perm), rnd.choice((0, 0, 1))) + ' '.join(q)).rstrip())
+        elif perm.startswith('actions/'):
+            out.append('pm_http kind=action act=reschedule-check ' + ' '.join(q))
+        else:
+            kind = perm.split('/')[1]
+            t = tys[0]
+            q = [x for x in q if not x.startswith('type=') or rnd.random() < 0.3]
+            extra = ' name=%s' % hx(qname(rnd, t, hosts, pairs)) if rnd.random() < 0.35 else ''
+            if kind == 'query' and rnd.random() < 0.25:
+                out.append(('pm_aq ptype=%ss%s attrs=%s ' % (t.lower(), extra, ','.join(hx(x) for x in ['name', 'vars'])) + ' '.join(q)).rstrip())
+            else:
+                out.append(('pm_http kind=%s ptype=%ss%s ' % (kind, t.lower(), extra) + ' '.join(q)).rstrip())
+    return out
+
+
+HIST_QDS = [q for q in QDS if q[0] in ('objects/query/Host', 'objects/query/Service', 'objects/modify/Host', 'objects/modify/Service',
+                                       'actions/reschedule-check', 'objects/delete/Host')]
+CHANGES = ['narrow', 'widen', 'revoke', 'add-filter', 'remove-filter', 'restore', 'replace', 'near-miss']
+
+
+def gen_history_case(rnd):
+    hosts, svcs, pairs, lines = gen_inventory(rnd)
+    FREE_SHARE[0] = 0.0
+    perm, tys = rnd.choice(HIST_QDS)
+    kind = rnd.choice(['wide', 'wide', 'filtered', 'mixed', 'none'])
+    cur = perm_list(rnd, kind, perm, hosts, svcs)
+    lines.append('pm_user perms=' + cur)
+    lines.append('pm_load')
+    me = hx('pmuser')
+    changes = []
+    reqs = hist_requests(rnd, perm, tys, hosts, svcs, pairs, rnd.randint(2, 4))
+    if rnd.random() < 0.85:
+        lines += reqs                       # the user is checked at least once BEFORE the change (15%: the change comes first)
+    for r in range(rnd.randint(1, 4)):
+        ch = rnd.choice(CHANGES)
+        nk = {'narrow': 'filtered', 'widen': 'wide', 'revoke': 'none', 'add-filter': 'mixed', 'remove-filter': 'wide',
+              'near-miss': 'near'}.get(ch, rnd.choice(['wide', 'filtered', 'none']))
+        new = perm_list(rnd, nk, perm, hosts, svcs)
+        if ch == 'restore':
+            lines.append('pm_urestore name=%s%s' % (me, ' via=http' if rnd.random() < 0.4 else ''))
+        elif ch == 'replace':
+            lines.append('pm_udel name=%s' % me)
+            lines.append('pm_auser name=%s pass=%s perms=%s' % (me, hx('pw'), new))
+        else:
+            via = ' via=http' if ('@' not in new or all(e.endswith('@') for e in new.split(';') if '@' in e)) and rnd.random() < 0.5 else ''
+            lines.append('pm_uset name=%s perms=%s%s' % (me, new, via))
+        changes.append(ch)
+        # the same requests again (what the change must affect), plus fresh ones
+        again = [x for x in reqs if rnd.random() < 0.8] + hist_requests(rnd, perm, tys, hosts, svcs, pairs, rnd.randint(0, 2))
+        rnd.shuffle(again)
+        lines += again
+    return {'lines': lines, 'tags': {'family': 'permission-history', 'changes': '+'.join(changes)}}
+
+
+CONN_USERS = ['alice', 'bob', 'Alice', 'carol', 'dave']
+CONN_PASS = ['secret', 'pw2', 'p:w', 'Secret', 'x']
+
+
+def gen_conn_case(rnd):
+    hosts, svcs, pairs, lines = gen_inventory(rnd)
+    FREE_SHARE[0] = 0.0
+    t = rnd.choice(['Host', 'Host', 'Service'])
+    perm = 'objects/query/' + t
+    lines.append('pm_user perms=' + perm_list(rnd, rnd.choice(['wide', 'filtered', 'none']), perm, hosts, svcs))
+    lines.append('pm_load')
+    users = {'pmuser': 'pw'}                 # registered name -> password
+    cns = {}
+    names = rnd.sample(CONN_USERS, rnd.randint(2, 4))
+    kinds = ['wide', 'none', 'filtered', 'wide', 'near']
+    rnd.shuffle(kinds)
+
+    def create(n, kind=None):
+        pw = rnd.choice(CONN_PASS)
+        cn = ''
+        if rnd.random() < 0.3 and n not in cns:
+            cns[n] = 'cn-' + n
+            cn = ' cn=%s' % hx(cns[n])
+        lines.append('pm_auser name=%s pass=%s%s perms=%s' % (hx(n), hx(pw), cn, perm_list(rnd, kind or rnd.choice(kinds), perm, hosts, svcs)))
+        users[n] = pw
+    for i, n in enumerate(names):
+        create(n, kinds[i % len(kinds)])
+    removed = {}
+
+    def header():
+        m = rnd.random()
+        if m < 0.66 and users:
+            n = rnd.choice(sorted(users))
+            return 'b:' + hx('%s:%s' % (n, users[n])), 'valid'
+        if m < 0.76 and users:
+            n = rnd.choice(sorted(users))
+            others = [p for p in CONN_PASS + ['pw'] if p != users[n]]
+            bad = rnd.choice([rnd.choice(others), users[n][:-1], users[n] + 'x', users[n].swapcase() if users[n].swapcase() != users[n] else 'zz', ''])
+            if bad == users[n]: bad = 'zz'
+            return 'b:' + hx('%s:%s' % (n, bad)), 'wrong-password'
+        if m < 0.83:
+            n = rnd.choice(sorted(removed) + ['mallory', 'PMUSER', 'alice ', ''] if removed else ['mallory', 'PMUSER', 'pmuse', ''])
+            if n in users: n = 'mallory'
+            return 'b:' + hx('%s:%s' % (n, removed.get(n, rnd.choice(CONN_PASS)))), 'unknown-user'
+        if m < 0.87 and users:
+            return 'b:' + hx(rnd.choice(sorted(users))), 'no-colon'
+        if m < 0.94:
+            return 'none', 'no-header'
+        n = rnd.choice(sorted(users)) if users else 'x'
+        import base64
+        b = base64.b64encode(('%s:%s' % (n, users.get(n, 'x'))).encode()).decode()
+        return 'o:' + hx(rnd.choice(['Bearer ' + b, 'basic ' + b, 'BASIC ' + b, 'Digest username="%s"' % n, 'Basic', b])), 'other-scheme'
+
+    nconn = 0
+    opened = []
+    dead = set()          # connections on which (correct code) a request was answered 401 or that were asked to close
+    certs = set()         # connections whose certificate CN belongs to a user
+    kindsused = []
+
+    def open_conn():
+        nonlocal nconn
+        nconn += 1
+        cn = ''
+        if rnd.random() < 0.25:
+            cn = ' cn=%s' % hx(rnd.choice(sorted(cns.values()) + ['cn-nobody']) if cns else 'cn-nobody')
+        lines.append('pm_copen conn=%d%s' % (nconn, cn))
+        opened.append(nconn)
+        if cn and 'cn-nobody' not in cn and hx('cn-nobody') not in cn: certs.add(nconn)
+    open_conn()
+    for step in range(rnd.randint(6, 12)):
+        m = rnd.random()
+        if m < 0.10 and len(opened) < 3:
+            open_conn()
+            continue
+        if m < 0.22:
+            # the world changes between two requests of a connection
+            n = rnd.choice(sorted(users))
+            k = rnd.random()
+            if k < 0.5:
+                new = perm_list(rnd, rnd.choice(['wide', 'none', 'filtered', 'near']), perm, hosts, svcs)
+                lines.append('pm_uset name=%s perms=%s' % (hx(n), new))
+            elif k < 0.65:
+                lines.append('pm_urestore name=%s' % hx(n))
+            elif k < 0.85 and n != 'pmuser':
+                lines.append('pm_udel name=%s' % hx(n))
+                removed[n] = users.pop(n)
+            elif n != 'pmuser':
+                lines.append('pm_udel name=%s' % hx(n))
+                removed[n] = users.pop(n)
+                create(n)
+            continue
+        live = [x for x in opened if x not in dead]
+        if not live and len(opened) < 4:
+            open_conn()
+            live = [opened[-1]]
+        # mostly a connection that is still open; 25%: any (a request after a 401 must not be served either)
+        c = rnd.choice(live) if live and rnd.random() < 0.75 else rnd.choice(opened)
+        h, hk = header()
+        kindsused.append(hk)
+        q = [x for x in gen_query(rnd, [t], hosts, svcs, pairs) if not x.startswith('type=') or rnd.random() < 0.3]
+        if rnd.random() < 0.5:
+            q = []                            # plain listing of the type
+        extra = ' name=%s' % hx(qname(rnd, t, hosts, pairs)) if rnd.random() < 0.25 else ''
+        close = ' close=1' if rnd.random() < 0.06 else ''
+        if (hk != 'valid' and c not in certs) or close: dead.add(c)
+        lines.append(('pm_creq conn=%d hdr=%s ptype=%ss%s%s ' % (c, h, t.lower(), extra, close) + ' '.join(q)).rstrip())
+    for c in opened:
+        if rnd.random() < 0.5:
+            lines.append('pm_cclose conn=%d' % c)
+    return {'lines': lines, 'tags': {'family': 'keepalive-identity', 'headers': '+'.join(sorted(set(kindsused)))}}
+
+
 def gen_field_tables_case():
     return {'lines': ['pm_fields type=%s' % t for t in ('Host', 'Service', 'CheckCommand', 'EventCommand', 'TimePeriod', 'Endpoint')],
             'tags': {'family': 'field-tables'}}
@@ -1047,13 +1250,17 @@ def generate(seed, tier):
         cases.append(gen_race_case(rnd))
     for i in range(n // 4):
         cases.append(gen_attrs_case(rnd))
+    for i in range(n // 5):
+        cases.append(gen_history_case(rnd))
+    for i in range(n // 5):
+        cases.append(gen_conn_case(rnd))
     return cases
 
 
 def nontrivial(case, impl_lines):
     if case['lines'] and case['lines'][0].startswith(('pm_match', 'pm_fields')):
         return True
-    return any((' objs=' in l and ' objs=-' not in l) or 'res=err' in l or 'code=404' in l for l in impl_lines)
+    return any((' objs=' in l and ' objs=-' not in l) or 'res=err' in l or 'code=404' in l or 'code=401' in l for l in impl_lines)
 
 
 def classify(case, detail, impl_lines):
@@ -1061,6 +1268,10 @@ def classify(case, detail, impl_lines):
         return 'crash'
     if 'match-differs' in detail:
         return 'matcher'
+    if 'decided-on-an-earlier-permission-list' in detail:
+        return 'stale-permission-list'
+    if 'identity:' in detail:
+        return 'identity'
     if 'has-permission-differs' in detail or 'out-parameter' in detail or 'check-permission-disagrees' in detail:
         return 'permission-matching'
     if 'rejected-first' in detail or 'request-served' in detail:
@@ -1084,7 +1295,7 @@ def canon(lines):
 
 
 def keep_line(l):
-    return l.startswith(('pm_host', 'pm_svc', 'pm_user', 'pm_load'))
+    return l.startswith(('pm_host', 'pm_svc', 'pm_user', 'pm_load', 'pm_copen'))
 
 
 def _nav_order_stats(case, c):
@@ -1216,6 +1427,12 @@ def extra_stats(cases, impl):
                 c['race:' + kv.get('kind', '?')] += 1
             elif op == 'pm_glob':
                 c['globals_declared'] += 1
+            elif op in ('pm_uset', 'pm_urestore', 'pm_udel', 'pm_auser'):
+                c['user_change:' + op[3:] + (':via-http' if ' via=http' in l else '')] += 1
+            elif op == 'pm_copen':
+                c['conn_opened' + ('_with_certificate_cn' if ' cn=' in l else '')] += 1
+            elif op == 'pm_creq':
+                c['conn_requests'] += 1
             elif op == 'pm_user':
                 n = 0 if l.endswith(('=-', '=none')) else l.count(';') + 1
                 c['user_entries:%d' % n] += 1
@@ -1239,7 +1456,31 @@ def extra_stats(cases, impl):
                 c['aq_' + (l.split('code=')[1].split()[0] if 'code=' in l else '?')] += 1
                 if ' joins=' in l and ' joins=-' not in l: c['aq_join_serialised'] += 1
                 if ' akeys=#' in l: c['aq_all_fields'] += 1
+            elif l.startswith('pm_creq'):
+                c['creq_' + (l.split('code=')[1].split()[0] if 'code=' in l else 'closed')] += 1
             elif l.startswith('pm_perm'):
                 c['perm_has' if 'has=1' in l else 'perm_missing'] += 1
                 if '!E' in l: c['perm_filter_throws'] += 1
+    # round 6: how many requests FOLLOW a runtime change of the user they are decided for, and how many connections carry more than one identity
+    for cs in cases:
+        fam = cs.get('tags', {}).get('family')
+        if fam == 'permission-history':
+            changed = False
+            for l in cs['lines']:
+                op = l.split()[0]
+                if op in ('pm_uset', 'pm_urestore', 'pm_udel'): changed = True
+                elif op in ('pm_q', 'pm_http', 'pm_perm', 'pm_aq'):
+                    c['history_requests_after_a_change' if changed else 'history_requests_before_any_change'] += 1
+            for ch in cs['tags'].get('changes', '').split('+'):
+                if ch: c['history_change:' + ch] += 1
+        elif fam == 'keepalive-identity':
+            per = {}
+            for l, o in zip([x for x in cs['lines'] if x.startswith('pm_creq')], [x for x in impl.get(cs['id'], []) if x.startswith('pm_creq')]):
+                kv = dict(p.split('=', 1) for p in l.split()[1:] if '=' in p)
+                if 'closed' not in o: per.setdefault(kv['conn'], []).append(kv['hdr'])
+            for hs in per.values():
+                if len(set(hs)) > 1: c['connections_answering_under_more_than_one_header'] += 1
+                if len(hs) > 1: c['connections_with_more_than_one_answered_request'] += 1
+            for hk in cs['tags'].get('headers', '').split('+'):
+                if hk: c['conn_cases_with_header:' + hk] += 1
     return {k: v for k, v in c.items() if v}
